@@ -594,3 +594,68 @@ def setterkind(pid):
         res.notes.append("setter functions: " + ", ".join(sorted(inset)))
         return res
     return run
+
+
+def keeptimes(pid):
+    """R-KEEPTIMES: what was set on a storage or on the root comes back after reopening.  DirEntry::read_from may
+    replace the CLSID and the two timestamps it has read by nil / zero for STREAMS (a tolerated deviation); on the
+    paths an entry of type Storage or Root takes, the values that reach the entry's clsid / creation_time /
+    modified_time are the ones read from the file - no constant is substituted."""
+    def run(ctx):
+        from rules_sink import _edge_label
+        from cfg import reach_flag_aware
+        res = RuleResult("R-KEEPTIMES(%s)" % pid, "on the paths of DirEntry::read_from that a Storage or Root entry takes, no constant (Timestamp::zero(), Uuid::nil()) is assigned to the variables that become the entry's clsid / creation_time / modified_time")
+        f = ctx.fx.fns.get("internal::direntry::DirEntry::read_from")
+        if f is None:
+            res.gone.append("DirEntry::read_from")
+            return res
+        v = view(ctx, f)
+        pg = v.pg
+        g = guards(ctx, f)
+        pr = Prov(f)
+        targets = {}
+        for bb, blk in enumerate(f.blocks):
+            if blk["cleanup"]:
+                continue
+            for st in blk["stmts"]:
+                if st["s"] == "assign" and st["rv"]["r"] == "aggregate" and str(st["rv"].get("adt", "")).endswith("DirEntry"):
+                    names = st["rv"].get("fields") or []
+                    for k, op in enumerate(st["rv"].get("ops", [])):
+                        if k < len(names) and names[k] in ("clsid", "creation_time", "modified_time") and op_local(op) is not None:
+                            targets[op_local(op)] = names[k]
+        # follow plain copies back to the named variables
+        work = dict(targets)
+        for _ in range(4):
+            for blk in f.blocks:
+                for st in blk["stmts"]:
+                    if st["s"] == "assign" and not st["place"]["proj"] and st["place"]["local"] in work and st["rv"]["r"] == "use" and op_local(st["rv"]["op"]) is not None and not st["rv"]["op"]["place"]["proj"]:
+                        work.setdefault(op_local(st["rv"]["op"]), work[st["place"]["local"]])
+        consts = []
+        for l, fld in work.items():
+            for d in pr.defs.get(l, []):
+                dp = pr._def(d, 0, ())
+                if re.match(r"^(Timestamp::zero\(\)|Uuid::nil\(\)|(\w+::)*Timestamp::Timestamp\(const:0\)|const:[^()]*)$", dp):
+                    consts.append((("t", d[0]) if d[1] == "t" else ("s", d[0], d[1]), fld, dp, d))
+        n = 0
+        for kind in ("Storage", "Root"):
+            barrier = set()
+            for b, blk in enumerate(f.blocks):
+                if blk["cleanup"] or blk["term"]["t"] != "switch":
+                    continue
+                for k, tgt in enumerate(f.succ(b)):
+                    val, vals = _edge_label(f, b, k)
+                    for a in g.describe_all(b, val, vals):
+                        mm = re.search(r" is (not )?ObjType::(\w+)$", a)
+                        if mm and ((mm.group(1) and mm.group(2) == kind) or (not mm.group(1) and mm.group(2) != kind)):
+                            barrier.update(pg.edge_node(b, tgt))
+            reach = reach_flag_aware(f, pg, [pg.entry()], barrier)
+            for node, fld, dp, d in consts:
+                n += 1
+                if node in reach:
+                    sp = f.blocks[d[0]]["term"]["span"] if d[1] == "t" else f.blocks[d[0]]["stmts"][d[1]]["span"]
+                    res.fail(Finding(res.rule, "R-KEEPTIMES/%s/%s-replaced-for-%s" % (f.path, fld, kind.lower()), "read_from can replace the %s it has read by %s for an entry of type %s: what was set on it (and written to the file) reads back as nil / zero after reopening" % (fld, dp[:30], kind), f, sp))
+                else:
+                    res.ok({"field": fld, "constant": dp[:30], "object_type": kind, "reachable": False}, nontrivial=True)
+        res.floor("constant substitutions of clsid / times, per object type", n, ctx.table("floors").get("keeptimes_sites", 0))
+        return res
+    return run
